@@ -163,11 +163,8 @@ def examine(case: dict, ctx) -> Outcome:
             out.skipped = "reference-undefined"
             return out
     except (ZeroDivisionError, OverflowError, ValueError, TypeError):
-        if not case["untranslatable"]:
-            out.skipped = "reference-undefined"
-            return out
-        m = build(spec)
-        y = [case["state"][v] for v in vn]
+        out.skipped = "reference-undefined"
+        return out
 
     try:
         sm = to_symbolic_model(m)
@@ -179,7 +176,14 @@ def examine(case: dict, ctx) -> Outcome:
         out.classes.append("untranslatable")
         if sm is not None:
             out.bad("symbolic-model-for-untranslatable-function")
-        # the simulator must fall back (warning), not crash
+        # the simulator must fall back (warning), not crash (only judged where the model itself is well-defined)
+        try:
+            ic = m.get_initial_conditions()
+            r0 = np.array(m(0.0, list(ic.values())), dtype=float)
+            if not np.all(np.isfinite(r0)) or np.abs(r0).max() > 50:
+                return out
+        except Exception:  # noqa: BLE001
+            return out
         try:
             s = Simulator(m, use_jacobian=True, integrator=partial(Scipy, method="Radau"))
             s.simulate(0.1, steps=2)
